@@ -183,6 +183,7 @@ func runC06(r *vf.Run) {
 	c06Snapshots(r)
 	c06KillAt(r)
 	c06Strace(r)
+	c06SizeKill(r)
 	for _, site := range []string{"mem.begin", "mem.commit", "mem.final", "big.temp-commit", "big.flush-begin", "big.final"} {
 		r.Floor("hook site hit: "+site, r.HasCover("hook_sites_hit", site))
 	}
@@ -262,10 +263,12 @@ func c06Snapshots(r *vf.Run) {
 					r.Count("class_"+cls, 1)
 					r.Count("snapshots_"+writer, 1)
 					r.Distinct(sid)
-					last := i == len(snaps)-1
-					if last && cls != "accepted-complete" && cls != "wrong" && cls != "panic" {
-						r.Violation(sid, "final-not-accepted", map[string]any{"class": cls, "explanation": "the snapshot after the last commit must be the complete index"})
-					}
+				}
+				// the file as it is once the writer has returned must be the complete index (the state at the last hook
+				// site need not be: a writer may well finish its output after its last commit point)
+				r.Eval(1)
+				if cls := classifyOutput(r, cid+"/returned", out, ps, rows, map[string]any{"engine": "after-return", "writer": writer, "dataset": d.id}); cls != "accepted-complete" && cls != "wrong" && cls != "panic" {
+					r.Violation(cid+"/returned", "final-not-accepted", map[string]any{"class": cls, "explanation": "the writer returned without error but its output is not a complete index"})
 				}
 				r.Max("commits_in_one_run", int64(len(snaps)))
 				if d.id == "v2500" && writer == ix.WriterMemFile {
@@ -520,4 +523,124 @@ func c06Strace(r *vf.Run) {
 	}
 	r.Count("strace_kill_positions_distinct", int64(r.Covered("strace_kill_positions")))
 	_ = bbolt.ErrTimeout
+}
+
+// engine 4: SIGKILL at arbitrary instants, triggered by the size of the growing output file. The instant is not
+// reproducible, but the oracle does not depend on where the kill lands; the sizes at which the process died are the
+// coverage. This reaches windows that no hook site and no syscall boundary marks (e.g. the middle of one long copy).
+func c06SizeKill(r *vf.Run) {
+	if !haveBin("updog") {
+		return
+	}
+	otherFS := filepath.Join(vf.Root(), ".scratch", fmt.Sprintf("c06-sk-%d", os.Getpid()))
+	if err := os.MkdirAll(otherFS, 0o755); err != nil {
+		otherFS = ""
+	} else {
+		defer os.RemoveAll(otherFS)
+	}
+	type sc struct {
+		d   c06Data
+		big bool
+	}
+	large := c06Data{"large", 90000, []int{90000, 30000, 7000, 500, 40, 3}}
+	cases := []sc{{large, false}, {large, true}, {c06Data{"v2500", 2500, []int{2500}}, false}}
+	if r.Thorough() {
+		cases = append(cases, sc{c06Data{"r3100", 3100, []int{13, 5}}, true}, sc{c06Data{"wide", 40000, []int{40000, 40000, 20000, 9000}}, false}, sc{c06Data{"wide", 40000, []int{40000, 40000, 20000, 9000}}, true})
+	}
+	for _, c := range cases {
+		mode := "normal"
+		if c.big {
+			mode = "big"
+		}
+		cid := fmt.Sprintf("sizekill/%s/%s", c.d.id, mode)
+		if !r.Want(cid) {
+			continue
+		}
+		r.Progress(cid)
+		csv := gen.CSVWithValues(c.d.rows, c.d.vals)
+		dir := filepath.Join(r.Scratch, "sizekill-"+c.d.id+"-"+mode)
+		mustMkdir(dir)
+		in := filepath.Join(dir, "in.csv")
+		_ = os.WriteFile(in, []byte(csv.Text), 0o644)
+		args := func(out string) []string {
+			a := []string{"create", "-o", out}
+			if c.big {
+				a = append(a, "-b")
+			}
+			return append(a, in)
+		}
+		full := filepath.Join(dir, "full.updog")
+		res := runChild(r, binPath("updog"), args(full), childOpts{Timeout: 5 * time.Minute, TmpDir: otherFS})
+		st, err := os.Stat(full)
+		if res.Code != 0 || res.TimedOut || err != nil {
+			r.Inconclusive(cid + ": full run failed")
+			continue
+		}
+		final := st.Size()
+		r.Extra("sizekill_final_bytes_"+c.d.id+"_"+mode, final)
+		os.Remove(full)
+		n := r.Pick(8, 40)
+		var ids []string
+		fr := map[string]float64{}
+		for k := 0; k < n; k++ {
+			id := fmt.Sprintf("%s/at%02d", cid, k)
+			ids = append(ids, id)
+			// thresholds from "as soon as the file exists" up to just below the final size
+			fr[id] = float64(k) / float64(n)
+		}
+		r.ForEach(ids, 4, func(id string) {
+			out := filepath.Join(dir, vf.Digest(id)+".updog")
+			threshold := int64(fr[id] * float64(final))
+			cmd := newCmd(binPath("updog"), args(out), []string{"TMPDIR=" + firstNonEmpty(otherFS, r.Scratch)}, nil)
+			if err := cmd.Start(); err != nil {
+				r.Inconclusive(id + ": " + err.Error())
+				return
+			}
+			exited := make(chan struct{})
+			go func() { _ = cmd.Wait(); close(exited) }()
+			killedAt := int64(-1)
+			deadline := time.After(3 * time.Minute)
+		poll:
+			for {
+				select {
+				case <-exited:
+					break poll
+				case <-deadline:
+					_ = cmd.Process.Kill()
+					<-exited
+					r.Inconclusive(id + ": create still running after 3 minutes")
+					return
+				default:
+				}
+				if st, err := os.Stat(out); err == nil && st.Size() >= threshold && (threshold > 0 || st.Size() >= 0) {
+					killedAt = st.Size()
+					_ = cmd.Process.Kill()
+					<-exited
+					break poll
+				}
+				time.Sleep(50 * time.Microsecond)
+			}
+			r.Eval(1)
+			if killedAt < 0 {
+				r.Count("sizekill_runs_that_finished_before_the_kill", 1)
+			} else {
+				r.Cover("sizekill_sizes_at_death_"+mode, fmt.Sprintf("%s:%d", c.d.id, killedAt))
+				r.Count("sizekill_kills_"+mode, 1)
+			}
+			cls := classifyInChild(r, id, out, c.d, map[string]any{"engine": "size-triggered-sigkill", "mode": mode, "dataset": c.d.id, "size_at_kill": killedAt, "final_size": final, "cli_tmpdir_on_other_filesystem": otherFS != ""})
+			r.Count("class_"+cls, 1)
+			r.Distinct(fmt.Sprintf("%s@%d", id, killedAt))
+			if killedAt < 0 && cls != "accepted-complete" && cls != "wrong" && cls != "crash" {
+				r.Violation(id, "final-not-accepted", map[string]any{"class": cls, "explanation": "the command exited on its own, but its output is not a complete index"})
+			}
+			os.Remove(out)
+		})
+	}
+}
+
+func firstNonEmpty(a, b string) string {
+	if a != "" {
+		return a
+	}
+	return b
 }
